@@ -216,6 +216,24 @@ SiblingsDistinct(t) ==
 
 AllTypesOf(ms) == {ms[i].a : i \in 1..Len(ms)} \cup {ms[i].b : i \in {j \in 1..Len(ms) : ms[j].k = "method"}}
 
+\* "finitely sized" (a premise of C09): no typedef contains itself BY VALUE.  A reference behind [] or [string] is a heap
+\* indirection in the generated Rust (Vec / map) and ends the containment; `?T` (Option<T>) and struct members do not.
+RECURSIVE InlineRefs(_)
+InlineRefs(t) ==
+  CASE t.c = "ref" -> {t.n}
+    [] t.c = "opt" -> InlineRefs(t.e)
+    [] t.c = "struct" -> UNION {InlineRefs(t.f[i].t) : i \in 1..Len(t.f)}
+    [] OTHER -> {}
+TypedefOf(ms, n) == (CHOOSE i \in 1..Len(ms) : ms[i].k = "type" /\ ms[i].n = n)
+RECURSIVE ContainedByValue(_, _, _)
+ContainedByValue(ms, S, fuel) ==   \* names reachable by value from the names in S (including S)
+  LET known == {n \in S : n \in MemberNames(ms, "type")}
+      next == S \cup UNION {InlineRefs(ms[TypedefOf(ms, n)].a) : n \in known}
+  IN IF fuel = 0 \/ next = S THEN S ELSE ContainedByValue(ms, next, fuel - 1)
+FinitelySized(ms) ==
+  \A n \in MemberNames(ms, "type") :
+     n \notin ContainedByValue(ms, InlineRefs(ms[TypedefOf(ms, n)].a), Len(ms))
+
 Valid(ms) ==
   /\ DupNames(ms) = {}
   /\ \A t \in AllTypesOf(ms) : TypeOk(t) /\ SiblingsDistinct(t) /\ RefsOf(t) \subseteq MemberNames(ms, "type")
